@@ -1015,6 +1015,9 @@ def execute(ctx, kind, base, copy, prog, check_at):
                 return (step, bad[0], "step 0 (as_encoded_array): " + bad[1]), step
         for si, op in enumerate(prog):
             step = classify(kind, op, value, prev)
+            if op[0] == "eq_self" and kind == "M" and ctx.name == "strand":
+                # StrandEncoding is a FlatAlphabetEncoding: its _encode ravels by design, so a 2-D operand of another encoding loses its shape
+                step += ":flat-alphabet-encoding"
             if is_obs(kind, op):
                 exp, got = OBS[kind](ctx, obj, value, op)
                 if exp != got:
